@@ -43,8 +43,12 @@ func IsJWT(_ string, data []byte, _ int64) bool {
 
 func IsMixedPEM(_ string, data []byte, _ int64) bool {
 	start := bytes.Index(data, []byte("-----BEGIN"))
-	end := bytes.Index(data, []byte("-----END"))
-	return start >= 0 && end > start
+	if start < 0 {
+		return false
+	}
+	// an END marker after the first BEGIN; one that precedes it (left over from
+	// a cut block) says nothing about the blocks that follow
+	return bytes.Contains(data[start:], []byte("-----END"))
 }
 
 func IsUUID(_ string, data []byte, _ int64) bool {
